@@ -64,7 +64,7 @@ pub struct EnumPlan {
     pub into_default: Option<Res>,
 }
 
-const FNAMES: [&str; 3] = ["a", "b", "c"];
+const FNAMES: [&str; 4] = ["a", "b", "c", "d"];
 const DMEM: [&str; 4] = ["x", "y", "z", "w"];
 
 impl EnumPlan {
@@ -119,7 +119,7 @@ pub fn gen_plan(t: &mut Tape) -> EnumPlan {
                 _ => Shape::Named,
             }
         };
-        let nf = if shape == Shape::Unit { 0 } else { 1 + t.below(3) };
+        let nf = if shape == Shape::Unit { 0 } else { 1 + t.weighted(&[3, 3, 3, 2]) };
         let field_names: Vec<String> = (0..nf).map(|i| if shape == Shape::Named { FNAMES[i].to_string() } else { format!("{}", i) }).collect();
         let name = format!("V{}", vi);
         // S-only ghost variant?
@@ -200,7 +200,7 @@ pub fn gen_plan(t: &mut Tape) -> EnumPlan {
             }
         }
         // positional counterpart: index renames may send the mapped members to other positions than their running order
-        if d_shape == Shape::Tuple && variant_expr.is_none() && r >= 2 && t.chance(1, 4) {
+        if d_shape == Shape::Tuple && variant_expr.is_none() && r >= 2 && t.chance(1, 3) {
             let mut perm: Vec<usize> = (0..r).collect();
             t.shuffle(&mut perm);
             let mut k = 0;
@@ -335,6 +335,7 @@ fn dir_name(t: &mut Tape, plan: &EnumPlan, base: &str) -> String {
         match base {
             "owned_into" => "owned_try_into".into(),
             "ref_into" => "ref_try_into".into(),
+            "into" => "try_into".into(),
             b => format!("try_{}", b),
         }
     } else {
@@ -466,10 +467,14 @@ pub fn render(t: &mut Tape, plan: &EnumPlan, core_only: bool) -> E2Case {
                                         fattrs[i].extend(mk("map", &member, o_from.clone()));
                                     } else {
                                         if plan.has(FO) {
-                                            fattrs[i].extend(mk(if t.coin() { "from" } else { "from_owned" }, &member, o_from.clone()));
+                                            let base = if t.coin() { "from" } else { "from_owned" };
+                                            let n = dir_name(t, plan, base);
+                                            fattrs[i].extend(mk(&n, &member, o_from.clone()));
                                         }
                                         if plan.has(OI) {
-                                            fattrs[i].extend(mk(if t.coin() { "into" } else { "owned_into" }, &member, o_into.clone()));
+                                            let base = if t.coin() { "into" } else { "owned_into" };
+                                            let n = dir_name(t, plan, base);
+                                            fattrs[i].extend(mk(&n, &member, o_into.clone()));
                                         }
                                     }
                                 } else {
